@@ -385,6 +385,18 @@ class Interp(object):
             want_mask |= bit
         got = ns.taxa_bitmask(taxa=[m[0] for m in subset])
         V(got == want_mask, "taxa_bitmask_is_or", lambda: "got %s want %s" % (bin(got), bin(want_mask)))
+        if subset:
+            # a set of taxa given with repetitions is still that set
+            rep = [m[0] for m in subset] + [subset[a["pl"] % len(subset)][0], subset[0][0]]
+            got2 = ns.taxa_bitmask(taxa=rep)
+            V(got2 == want_mask, "taxa_bitmask_is_or", lambda: "taxa given with repetitions: got %s want %s" % (bin(got2), bin(want_mask)))
+            labs = [m[0].label for m in subset]
+            got3 = ns.taxa_bitmask(labels=labs + labs[:1], is_case_sensitive=True)
+            want3 = 0
+            for m in model:
+                if m[0].label in labs:
+                    want3 |= m[1]
+            V(got3 == want3, "taxa_bitmask_by_labels", lambda: "labels %r: got %s want %s" % (labs + labs[:1], bin(got3), bin(want3)))
         back = ns.bitmask_taxa_list(want_mask)
         V(len(back) == len(subset) and set(id(t) for t in back) == set(id(m[0]) for m in subset), "bitmask_taxa_list",
           lambda: "got %r want %r" % ([t.label for t in back], [m[0].label for m in subset]))
